@@ -44,6 +44,43 @@ def doOps (ts : List String) : String :=
     | _ => "bad-op"
   | _ => "bad-op"
 
+/-- the row table of cell `c`, with the nine lookups evaluated once (`rowTable cells c` by definition) -/
+def rowTableMemo (cells : List (Int × Int)) (c : Int × Int) : Option Table × (Pos → Option Nat) :=
+  let nb := Pos.all.map fun p => (p, neighbour cells c p)
+  let look : Pos → Option Nat := fun p => match nb.find? (fun q => q.1 == p) with
+    | some q => q.2
+    | none => none
+  (runProgram program (fun p => (look p).isSome), look)
+
+/-- `rows n (ix iy)*n nv (x y)*(n*nv) m i*m`: extracted dx, dy and, for the sampled rows, every operator's nine
+stencil entries as `column value` (column -1 = no such neighbour) -/
+def doRows (ts : List String) : String :=
+  match ts with
+  | nS :: rest =>
+    let n := pN nS
+    let (cells, rest) := cellsOf n rest
+    match rest with
+    | nvS :: fl =>
+      let nv := pN nvS
+      let verts := (chunks (2 * nv) n ((fl.take (2 * nv * n)).map pF)).map pairs
+      let sample := (fl.drop (2 * nv * n + 1)).map pN
+      match extractSteps (verts.map centre) with
+      | none => "ValueError"
+      | some (dx, dy) =>
+        let tabs := (cells.map (rowTableMemo cells)).toArray
+        if tabs.any (·.1.isNone) then "IndexError" else
+        let out := sample.map fun i =>
+          match tabs[i]! with
+          | (some t, look) =>
+            " ".intercalate (Op5.all.map fun op => " ".intercalate (Pos.all.map fun p =>
+              match look p with
+              | some j => toString j ++ " " ++ fF ((t.val op p : Float) / scaleDen op dx dy)
+              | none => "-1 " ++ fF ((t.val op p : Float) / scaleDen op dx dy)))
+          | _ => ""
+        "ok " ++ fFs [dx, dy] ++ " " ++ " ".intercalate out
+    | _ => "bad-op"
+  | _ => "bad-op"
+
 def matOf (n : Nat) (a : Array Float) (off : Nat) : Nat → Nat → Float := fun i j => a[off + i * n + j]!
 
 /-- `admt n aniso dx dy radii*n psi*n Dx*n² Dy*n² Dxx*n² Dxy*n² Dyy*n²` -/
@@ -67,6 +104,7 @@ def step (ts : List String) : String :=
   match ts with
   | "ops" :: r => doOps r
   | "admt" :: r => doAdmt r
+  | "rows" :: r => doRows r
   | ["coef", an, rr, a1, a2, a3, a4, a5, a6, a7, a8, a9] =>
       let k := coeffs (pF an) (pF rr) (pF a1) (pF a2) (pF a3) (pF a4) (pF a5) (pF a6) (pF a7) (pF a8) (pF a9)
       fFs [k.cx, k.cy, k.cxx, k.cxy, k.cyy]
